@@ -131,6 +131,17 @@ Proof.
   apply (N.div_unique _ _ _ (1000000 - 1 - r)); lia.
 Qed.
 
+Lemma fee_required_ceiling minFee usage :
+  minFee * usage <= fee_required minFee usage * 1000000 /\
+  forall k, minFee * usage <= k * 1000000 -> fee_required minFee usage <= k.
+Proof.
+  unfold fee_required. change micro with 1000000. set (x := minFee * usage).
+  pose proof (N.div_mod (x + (1000000 - 1)) 1000000 ltac:(discriminate)) as Hdm.
+  pose proof (N.mod_upper_bound (x + (1000000 - 1)) 1000000 ltac:(discriminate)) as Hub.
+  split; [lia|]. intros k Hk.
+  apply N.lt_succ_r. apply N.div_lt_upper_bound; [discriminate|]. lia.
+Qed.
+
 Lemma fee_required_mul minFee usage : fee_required minFee usage = fee_required (minFee * usage) 1.
 Proof. unfold fee_required. rewrite N.mul_1_r. reflexivity. Qed.
 
